@@ -19,3 +19,4 @@ def check(repo, rep, tier):
     rb.rule_no_heap_escape(em, rep, 'C03.U3')
     rb.rule_manual_advance(em, rep, 'C03.U4')
     rb.rule_no_exhaust_then_yield(em, rep, 'C03.U5')
+    rb.rule_no_exception_capture(em, rep, 'C03.U7')
